@@ -26,7 +26,7 @@ class HarnessError(Exception):
     pass
 
 
-CHILD_TIMEOUT = 120
+CHILD_TIMEOUT = 300
 LINES = set()            # (module file name, line) reached under VERIF_TRACE
 
 
@@ -56,8 +56,14 @@ def in_child(fn, args, timeout=CHILD_TIMEOUT):
             os.close(r)
             # fork-safe watchdog (faulthandler's watchdog thread deadlocks
             # when re-armed in a forked grandchild)
+            # the budget is CPU time of this child (a machine that is busy
+            # with other work must not turn a slow world into a harness
+            # error); a generous wall-clock alarm still ends a child that
+            # blocks without using the CPU
             signal.signal(signal.SIGALRM, signal.SIG_DFL)
-            signal.alarm(int(timeout))
+            signal.signal(signal.SIGPROF, signal.SIG_DFL)
+            signal.setitimer(signal.ITIMER_PROF, float(timeout))
+            signal.alarm(int(timeout) * 8)
             sink = None
             if os.environ.get('VERIF_TRACE'):
                 import mininec
